@@ -91,6 +91,21 @@ func probeOne(kind, script string) {
 			fmt.Println("  dot diff:", firstDiff(p0.Dot, p2.Dot))
 		}
 	}
+	if os.Getenv("C13_REPS") != "" && p0.JErr == "" {
+		// how many different pipelines does the SAME JSON unmarshal to?
+		cnt := map[string]int{}
+		for i := 0; i < 300; i++ {
+			p3 := fromJSON(p0.JSON)
+			k := "same"
+			if p3.Err != "" {
+				k = "error: " + p3.Err
+			} else if p3.Iso != p0.Iso {
+				k = "differs: " + strings.Join(DiffPaths(p0.D, p3.D), " ")
+			}
+			cnt[k]++
+		}
+		fmt.Println("300 x Unmarshal of the same JSON:", cnt)
+	}
 	if p0.JErr == "" {
 		p3 := fromJSON(p0.JSON)
 		fmt.Printf("pipeline(JSON): err=%q dot= %v props= %v json= %v\n", p3.Err, p0.Dot == p3.Dot, p0.Props == p3.Props, p0.JSON == p3.JSON)
